@@ -211,3 +211,13 @@ pub fn fnv(data: &[u8]) -> u64 {
     }
     h
 }
+
+/// user + system CPU seconds of a process, from /proc/<pid>/stat (fields 14 and 15, 100 ticks/s)
+pub fn proc_cpu_secs(pid: u32) -> Option<f64> {
+    let s = std::fs::read_to_string(format!("/proc/{pid}/stat")).ok()?;
+    let rest = s.rsplit_once(") ")?.1;
+    let f: Vec<&str> = rest.split(' ').collect();
+    let ut: f64 = f.get(11)?.parse().ok()?;
+    let st: f64 = f.get(12)?.parse().ok()?;
+    Some((ut + st) / 100.0)
+}
